@@ -126,7 +126,8 @@ Definition spec_rate (total fail : nat) : Z :=
   if Nat.eqb total 0 then 0%Z
   else ((100 * (Z.of_nat total - Z.of_nat fail)) / Z.of_nat total)%Z.
 
-(* ---- the guards under which the shipped column walk is right ---- *)
+(* ---- global guards under which the shipped column walk is right for every row
+   (the per-row guard [row_guard] and the unguarded characterisation are in HtmlRow.v) ---- *)
 
 Definition distinct_times (v : list sinv) : Prop := NoDup (map si_time v).
 Definition one_run_per_suite (v : list sinv) : Prop :=
